@@ -18,6 +18,7 @@ import Rl.Lemmas.LineBuffer
 import Rl.Lemmas.LineBufferSafe
 import Rl.Lemmas.Motion
 import Rl.Lemmas.Indent
+import Rl.Lemmas.LineBufferSeq
 open Rl Rl.Spec
 
 /-- Clause "reports … a sequence of notifications that, replayed on the old text, yields exactly the
@@ -1350,3 +1351,247 @@ example : C03_opCovered (.kill (.forwardWord 2 .beforeEnd .vi)) = true := by dec
 example : C03_opCovered (.indent (.lineDown 3) 33 true) = true := by decide
 example : Op.argsValid ⟨['á', 'b', '\n', 'c'], 2, 16, false⟩ (.indent .wholeBuffer 255 false) = true := by decide
 example : Op.argsValid ⟨['á', 'b', '\n', 'c'], 2, 16, false⟩ (.replace 0 2 ['x']) = true := by decide
+
+/-! ### arbitrary SEQUENCES of operations (`Op.runAll`, `Op.Admissible`: `Rl/Lemmas/LineBufferSeq.lean`) -/
+
+/-- Sequence form of the clause "reports … notifications that, replayed on the old text, yield exactly the
+    new text": for EVERY list of public method calls, from EVERY state (well-formed or not), with every
+    argument, if the calls return without panic then the concatenation of everything the listener was told,
+    replayed on the text before the first call, yields exactly the text after the last call. (This is what
+    undo (C05) and the kill ring (C06) rely on over a whole editing session, not only over one call.) -/
+theorem C03_ops_notifications_replay (S : Segmenter) (U : UData) (ops : List Op) (lb lb' : LB)
+    (rs : List Ret) (ns : List Notif) (h : Op.runAll S U ops lb = .ok (rs, lb', ns)) :
+    replay ns lb.buf = some lb'.buf :=
+  Op.runAll_replay ops lb lb' rs ns h
+
+/-- Sequence form of the single statement: from every well-formed state (cursor on a character boundary),
+    EVERY list of public method calls whose arguments are, at the moment of each call, inside the contract of
+    the explicit-index primitives (`Op.Admissible`: `Op.argsValid` in the current state, and `insert_str` not
+    before the cursor) runs to the end without panic, answers every call, leaves the cursor inside the text on
+    a character boundary, and the concatenated notifications replay the first text to the last. -/
+theorem C03_ops_total_wf_replay (S : Segmenter) (U : UData) : ∀ (ops : List Op) (lb : LB), WF lb →
+    Op.Admissible S U ops lb →
+    ∃ rs lb' ns, Op.runAll S U ops lb = .ok (rs, lb', ns) ∧ rs.length = ops.length ∧ WF lb' ∧
+      replay ns lb.buf = some lb'.buf
+  | [], lb, h, _ => ⟨[], lb, [], rfl, rfl, h, rfl⟩
+  | op :: ops, lb, h, ha => by
+    obtain ⟨r, lb1, n1, h1, hwf, _⟩ := C03_op_total_wf_replay_all_partial S U op lb h ha.1 ha.2.1
+    obtain ⟨rs, lb2, n2, h2, hlen, hwf2, _⟩ := C03_ops_total_wf_replay S U ops lb1 hwf (ha.2.2 r lb1 n1 h1)
+    have hrun := Op.runAll_cons_ok h1 h2
+    exact ⟨r :: rs, lb2, n1 ++ n2, hrun, by simp [hlen], hwf2, Op.runAll_replay _ _ _ _ _ hrun⟩
+
+/-- "Every reachable state is well-formed": under the hypotheses of `C03_ops_total_wf_replay`, after EVERY
+    prefix of the call list (not only at the end) the run has not panicked and the cursor is on a character
+    boundary of the text; and the notifications sent so far replay the first text to the current one. -/
+theorem C03_ops_every_prefix_wf (S : Segmenter) (U : UData) (ops : List Op) (lb : LB) (h : WF lb)
+    (ha : Op.Admissible S U ops lb) (k : Nat) :
+    ∃ rs lb' ns, Op.runAll S U (ops.take k) lb = .ok (rs, lb', ns) ∧ WF lb' ∧
+      replay ns lb.buf = some lb'.buf := by
+  have hp : Op.Admissible S U (ops.take k) lb :=
+    Op.Admissible.prefix (ops.take k) (b := ops.drop k) (by rw [List.take_append_drop]; exact ha)
+  obtain ⟨rs, lb', ns, h1, _, h2, h3⟩ := C03_ops_total_wf_replay S U (ops.take k) lb h hp
+  exact ⟨rs, lb', ns, h1, h2, h3⟩
+
+/-- Sequence form of "changes the text only if it is an editing operation": a list of calls that are all
+    motions, queries or copies — however long, from every state, with every argument — leaves text, capacity
+    and growability alone and never calls the listener. -/
+theorem C03_ops_motion_copy_pure (S : Segmenter) (U : UData) : ∀ (ops : List Op) (lb lb' : LB)
+    (rs : List Ret) (ns : List Notif), (∀ op ∈ ops, Op.isMotionOrCopy op = true) →
+    Op.runAll S U ops lb = .ok (rs, lb', ns) →
+    lb'.buf = lb.buf ∧ lb'.cap = lb.cap ∧ lb'.canGrow = lb.canGrow ∧ ns = []
+  | [], lb, lb', rs, ns, _, h => by
+    rw [Op.runAll_nil] at h; cases h; exact ⟨rfl, rfl, rfl, rfl⟩
+  | op :: ops, lb, lb', rs, ns, hp, h => by
+    obtain ⟨r, lb1, n1, rs', n2, h1, h2, _, rfl⟩ := Op.runAll_cons_inv h
+    obtain ⟨a1, a2, a3, a4⟩ := (PosOnly.run S U op (hp op List.mem_cons_self)).h lb r lb1 n1 h1
+    obtain ⟨b1, b2, b3, b4⟩ := C03_ops_motion_copy_pure S U ops lb1 lb' rs' n2
+      (fun o ho => hp o (List.mem_cons_of_mem _ ho)) h2
+    exact ⟨b1.trans a1, b2.trans a2, b3.trans a3, by simp [a4, b4]⟩
+
+/-! non-vacuity of the sequence theorems: a call list with explicit indices, on a text with a 2-byte
+    character; the run is computed by the model -/
+example : Op.runAll charSeg ⟨fun _ => false, fun _ => false, fun c => [c], fun c => [c], fun t => t.length, fun _ => 1⟩
+    [.insert 'é' 1, .setPos 0, .replace 0 2 ['x'], .moveBufferEnd] ⟨['á', 'b'], 2, 16, false⟩ =
+    .ok ([.optBool (some false), .unit, .unit, .bool true], ⟨['x', 'é', 'b'], 4, 16, false⟩,
+      [.insChar 2 'é', .repl 0 ['á'] ['x']]) := by rfl
+
+/-- the state invariant of a fixed-capacity buffer (`LineBuffer::with_capacity(c)` when the text fits): it cannot grow, its
+    capacity is still `c`, and the text fits into `c` bytes -/
+def C03_FixedFits (c : Nat) (lb : LB) : Prop := lb.canGrow = false ∧ lb.cap = c ∧ blen lb.buf ≤ c
+
+/-- the calls of a typing session on a fixed-capacity buffer: the capacity-honouring insertions `insert`, `yank`
+    and every motion, query or copy -/
+def C03_opTyping : Op → Bool
+  | .insert _ _ | .yank _ _ => true
+  | op => Op.isMotionOrCopy op
+
+/-- one step: `insert`, `yank` and the motions keep a fixed-capacity buffer fixed, its capacity unchanged and
+    its text inside the capacity (from every state, no well-formedness needed) -/
+theorem C03_typing_step_fixedFits (S : Segmenter) (U : UData) (c : Nat) (op : Op) (lb : LB) (r : Ret) (lb' : LB)
+    (ns : List Notif) (hop : C03_opTyping op = true) (hi : C03_FixedFits c lb)
+    (h : Op.run S U op lb = .ok (r, lb', ns)) : C03_FixedFits c lb' := by
+  obtain ⟨hfix, hcap, hfit⟩ := hi
+  by_cases hm : Op.isMotionOrCopy op = true
+  · obtain ⟨a1, a2, a3, _⟩ := (PosOnly.run S U op hm).h lb r lb' ns h
+    exact ⟨a3.trans hfix, a2.trans hcap, by rw [a1]; exact hfit⟩
+  · cases op <;> simp only [C03_opTyping, Op.isMotionOrCopy, Bool.false_eq_true, not_true_eq_false] at hop hm
+    case insert ch n =>
+      unfold Op.run at h
+      obtain ⟨a, lb1, n1, n2, hrun, hp', rfl⟩ := LM.bind_ok h
+      simp only [LM.pure_apply, Except.ok.injEq, Prod.mk.injEq] at hp'
+      obtain ⟨_, rfl, _⟩ := hp'
+      rw [insert_eval] at hrun
+      split at hrun
+      · cases hrun; exact ⟨hfix, hcap, hfit⟩
+      · rename_i ht
+        have hle : blen lb.buf + ch.utf8Size * n ≤ lb.cap := by
+          simp [LB.mustTruncate, hfix, LB.len] at ht; exact ht
+        split at hrun
+        · cases hrun
+        · rename_i x z hs
+          cases hrun
+          obtain ⟨hb, _⟩ := splitAtByte_some hs
+          refine ⟨hfix, ?_, ?_⟩
+          · show growCap lb.cap _ = c
+            rw [growCap_fit hle]; exact hcap
+          · show blen (x ++ List.replicate n ch ++ z) ≤ c
+            simp [hb, blen_replicate] at hle ⊢; omega
+    case yank t n =>
+      unfold Op.run at h
+      obtain ⟨a, lb1, n1, n2, hrun, hp', rfl⟩ := LM.bind_ok h
+      simp only [LM.pure_apply, Except.ok.injEq, Prod.mk.injEq] at hp'
+      obtain ⟨_, rfl, _⟩ := hp'
+      rw [yank_eval] at hrun
+      split at hrun
+      · cases hrun; exact ⟨hfix, hcap, hfit⟩
+      · rename_i ht
+        have hle : blen lb.buf + blen t * n ≤ lb.cap := by
+          simp [LB.mustTruncate, hfix, LB.len] at ht; exact ht.2
+        split at hrun
+        · cases hrun
+        · rename_i x z hs
+          cases hrun
+          obtain ⟨hb, _⟩ := splitAtByte_some hs
+          refine ⟨hfix, ?_, ?_⟩
+          · show growCap lb.cap _ = c
+            rw [growCap_fit hle]; exact hcap
+          · show blen (x ++ yankText t n ++ z) ≤ c
+            simp [hb, blen_yankText] at hle ⊢; omega
+
+example : C03_FixedFits 4 (LB.withCapacity 4) := ⟨rfl, rfl, by decide⟩
+example : ∀ op ∈ [Op.insert 'é' 2, .moveBackward 1, .yank ['a', 'b'] 3, .copy .wholeBuffer], C03_opTyping op = true := by decide
+
+/-- the calls whose contract does not depend on the state they are made in: every cursor-relative method with
+    every argument value, `update` with a cursor on a boundary of ITS OWN new text, `indent` with a `u8`
+    amount; only the explicit-index primitives `yank_pop`, `replace`, `delete_range`, `insert_str`, `set_pos`
+    (whose indices must be boundaries of the CURRENT text) are left out -/
+def C03_opAlwaysValid : Op → Bool
+  | .yankPop _ _ | .replace _ _ _ | .deleteRange _ _ | .insertStr _ _ | .setPos _ => false
+  | .update b p => boundaryB b p
+  | .indent _ k _ => decide (k ≤ 255)
+  | _ => true
+
+theorem C03_alwaysValid_argsValid (op : Op) (h : C03_opAlwaysValid op = true) (lb : LB) :
+    Op.argsValid lb op = true ∧ ∀ i t, op = .insertStr i t → lb.pos ≤ i := by
+  cases op <;> simp_all [C03_opAlwaysValid, Op.argsValid]
+
+theorem C03_alwaysValid_admissible (S : Segmenter) (U : UData) : ∀ (ops : List Op),
+    (∀ op ∈ ops, C03_opAlwaysValid op = true) → ∀ lb, Op.Admissible S U ops lb
+  | [], _, _ => trivial
+  | op :: ops, h, lb =>
+    ⟨(C03_alwaysValid_argsValid op (h op List.mem_cons_self) lb).1,
+     (C03_alwaysValid_argsValid op (h op List.mem_cons_self) lb).2,
+     fun _ lb' _ _ => C03_alwaysValid_admissible S U ops (fun o ho => h o (List.mem_cons_of_mem _ ho)) lb'⟩
+
+/-- An editing SESSION is total: from every state with the cursor on a character boundary (in particular from
+    `LineBuffer::with_capacity`), EVERY list — of any length — of cursor-relative method calls (insert, yank,
+    every motion, delete, backspace, every kill / copy / indent movement, word and char-search operations,
+    transpositions, case changes, line motions, with every count incl. 0 and 65535) and of `update`s to a
+    text with a boundary cursor runs to the end without panic; after every call the cursor is inside the text
+    on a character boundary; and everything the listener was told replays the first text to the last. No
+    hypothesis about intermediate states is needed. -/
+theorem C03_session_total_wf_replay (S : Segmenter) (U : UData) (ops : List Op) (lb : LB) (h : WF lb)
+    (hops : ∀ op ∈ ops, C03_opAlwaysValid op = true) (k : Nat) :
+    ∃ rs lb' ns, Op.runAll S U (ops.take k) lb = .ok (rs, lb', ns) ∧ WF lb' ∧
+      replay ns lb.buf = some lb'.buf :=
+  C03_ops_every_prefix_wf S U ops lb h (C03_alwaysValid_admissible S U ops hops lb) k
+
+example : WF (LB.withCapacity 8) := ⟨[], [], rfl, by decide⟩
+example : ∀ op ∈ [Op.insert 'é' 65535, .kill (.backwardWord 0 .vi), .update ['á', 'b'] 2, .transposeChars,
+    .indent .wholeBuffer 255 true, .editWord .uppercase], C03_opAlwaysValid op = true := by decide
+
+/-- `update` on a fixed-capacity buffer, the part `C03_update_total_wf_capacity` does not state: besides
+    storing a text that fits (cut on a character boundary if need be), it keeps the buffer fixed and does not
+    reallocate — the capacity after the call is the capacity before it. -/
+theorem C03_update_fixed_capacity_kept (S : Segmenter) (U : UData) (b : Text) (p : Nat) (lb : LB)
+    (hp : IsBoundary b p) (hfix : lb.canGrow = false) :
+    ∃ lb' ns, LB.update S U b p lb = .ok ((), lb', ns) ∧ lb'.canGrow = false ∧ lb'.cap = lb.cap ∧
+      blen lb'.buf ≤ lb.cap := by
+  have hple : p ≤ blen b := hp.le_len
+  unfold LB.update
+  by_cases ht : ({ lb with buf := [] } : LB).mustTruncate (blen b) = true
+  · obtain ⟨hfb, hfle⟩ := floorBoundary_spec b lb.cap
+    obtain ⟨cut, rest, hcr, hcl⟩ := hfb
+    have hs : sliceTo b (floorBoundary b lb.cap) = .ok cut := by
+      rw [hcl]; conv => lhs; rw [hcr]
+      exact sliceTo_mid cut rest
+    refine ⟨{ lb with buf := cut, pos := min (floorBoundary b lb.cap) p, cap := growCap lb.cap (blen cut) },
+      [.del 0 lb.buf .forward, .insStr 0 cut], ?_, hfix, ?_, ?_⟩
+    · simp [LM.bind_apply, LM.get, hple, drain_all, ht, LM.lift, hs, insertStr_empty, LM.setPos]
+    · show growCap lb.cap (blen cut) = lb.cap
+      exact growCap_fit (by omega)
+    · show blen cut ≤ lb.cap; omega
+  · have hle : blen b ≤ lb.cap := by simp [LB.mustTruncate, hfix] at ht; exact ht
+    refine ⟨{ lb with buf := b, pos := p, cap := growCap lb.cap (blen b) },
+      [.del 0 lb.buf .forward, .insStr 0 b], ?_, hfix, ?_, hle⟩
+    · simp [LM.bind_apply, LM.get, hple, drain_all, ht, insertStr_empty, LM.setPos]
+    · show growCap lb.cap (blen b) = lb.cap
+      exact growCap_fit hle
+
+/-- the three operations the property names as honouring a fixed capacity (`insert`, `yank`, `update` with a
+    cursor on a boundary of its new text) and every motion, query or copy -/
+def C03_opCapacitySession : Op → Bool
+  | .update b p => boundaryB b p
+  | op => C03_opTyping op
+
+/-- Capacity along SEQUENCES, all three capacity-honouring operations: on a fixed-capacity buffer whose text
+    fits, any list of `insert` / `yank` / `update` calls interleaved with any motions, queries and copies
+    keeps the text within the capacity the buffer was created with, never reallocates and never makes the
+    buffer growable. (The remaining editing operations — `replace`, `insert_str`, `indent`, `edit_word`,
+    `yank_pop` via `insert_str` — do not consult the capacity and are outside this statement, as in the
+    property.) -/
+theorem C03_ops_capacity_session (S : Segmenter) (U : UData) (c : Nat) (ops : List Op) (lb lb' : LB)
+    (rs : List Ret) (ns : List Notif) (hops : ∀ op ∈ ops, C03_opCapacitySession op = true)
+    (hi : C03_FixedFits c lb) (h : Op.runAll S U ops lb = .ok (rs, lb', ns)) : C03_FixedFits c lb' := by
+  refine Op.runAll_invariant (C03_FixedFits c) (fun op => C03_opCapacitySession op = true) ?_ ops lb lb' rs ns hops hi h
+  intro op lb r lb' ns hp hI hr
+  by_cases hu : ∃ b p, op = .update b p
+  · obtain ⟨b, p, rfl⟩ := hu
+    have hb : IsBoundary b p := boundaryB_iff.mp (by simpa [C03_opCapacitySession] using hp)
+    obtain ⟨lb2, ns2, h1, h2, h3, h4⟩ := C03_update_fixed_capacity_kept S U b p lb hb hI.1
+    unfold Op.run at hr
+    obtain ⟨a, lb1, n1, n2, hm, hp', rfl⟩ := LM.bind_ok hr
+    rw [h1] at hm
+    simp only [LM.pure_apply, Except.ok.injEq, Prod.mk.injEq] at hm hp'
+    obtain ⟨_, rfl, _⟩ := hm
+    obtain ⟨_, rfl, _⟩ := hp'
+    exact ⟨h2, h3.trans hI.2.1, by have := hI.2.1; omega⟩
+  · have ht : C03_opTyping op = true := by
+      cases op <;> first | exact hp | exact absurd ⟨_, _, rfl⟩ hu
+    exact C03_typing_step_fixedFits S U c op lb r lb' ns ht hI hr
+
+example : ∀ op ∈ [Op.update ['á', 'b', 'c', 'd', 'e'] 2, .insert 'é' 2, .moveHome, .yank ['x'] 9],
+    C03_opCapacitySession op = true := by decide
+
+/-- non-vacuity of `Op.Admissible` with an explicit-index call: `insert('é')` then `replace(0..2, "x")` on
+    "áb" with the cursor at 2 — the indices of `replace` are checked in the state `insert` left -/
+example : Op.Admissible charSeg ⟨fun _ => false, fun _ => false, fun c => [c], fun c => [c], fun t => t.length, fun _ => 1⟩
+    [.insert 'é' 1, .replace 0 2 ['x']] ⟨['á', 'b'], 2, 16, false⟩ := by
+  refine ⟨by decide, (by intro i t h; cases h), ?_⟩
+  intro r lb' ns h
+  have e : Op.run charSeg ⟨fun _ => false, fun _ => false, fun c => [c], fun c => [c], fun t => t.length, fun _ => 1⟩
+      (.insert 'é' 1) ⟨['á', 'b'], 2, 16, false⟩ =
+      .ok (.optBool (some false), ⟨['á', 'é', 'b'], 4, 16, false⟩, [.insChar 2 'é']) := by rfl
+  rw [e] at h
+  cases h
+  exact ⟨by decide, (by intro i t h; cases h), fun _ _ _ _ => trivial⟩
